@@ -577,3 +577,6 @@ PROPS["C09"]["level_text"] += (" m_mod_ps_subscribe() (real ps.c + mem.c): one s
 PROPS["C09"]["not_decided"] = ["that the BST behind the abstract keyed set is a set for > K nodes (C11 is bounded)", "m_mod_ps_unsubscribe", "m_mod_src_len for more than 2 sources per kind (bounded stand-in)"]
 PROPS["C19"]["level_text"] += (" tell_system_pubsub_msg(): every notification without recipient is exactly one publication to the subscribers of its topic whatever the number of RUNNING modules, flagged as a "
                                "system message, naming the module it is about, without payload.")
+for _h, _fn in (("traverse_in", "traverse_inorder"), ("traverse_pre", "traverse_preorder"), ("traverse_post", "traverse_postorder")):
+    U("b." + _h, src="units/bst.c", harness="h_b_" + _h, enforce=_fn, enforce_rec=True, replace=["v_trav_cb"], defines=["V_TRAV_UNIT"], logctx="STRUCTS", props=["C11", "C04"],
+      contract_files=["contracts/bst.contracts.h"], native=False, timeout=300, min_obligations=5, unwind=3, unwindset={"v_base_init.0": 8, "v_inputs_init.0": 12}, structure_dependent=True)
